@@ -1,2 +1,3 @@
 import GraphSlam.Props.C15.Frame
+import GraphSlam.Props.Tie.GraphPy
 /-! C15 — umbrella. -/
